@@ -760,6 +760,27 @@ func c17RaceCase(t *core.T, rounds int) {
 		}
 	}, t.R.Uint64())
 	api(func(r *core.Rand) { W.SyncedTo(); W.CurrentWallet(); W.CheckReady(ids[r.Intn(2)]) }, t.R.Uint64())
+	// wallet churn: fresh wallets are created, selected, given addresses and removed again while the
+	// other goroutines read the address book, balances and wallet list (state-changing API calls against
+	// reading ones, not only against the follower)
+	var made []string
+	api(func(r *core.Rand) {
+		if len(made) < 3 && r.Chance(25) {
+			if id, _, _, err := W.CreateWallet("c17churn", "c", 128); err == nil {
+				made = append(made, id)
+			}
+		}
+		if len(made) > 0 {
+			W.UseWallet(made[r.Intn(len(made))])
+			for k := 0; k < r.Range(1, 5); k++ {
+				W.NewAddress(uint16(r.Intn(2)))
+			}
+			W.GetAllAddressesWithPubkey()
+			if r.Chance(6) && W.RemoveWallet(made[0], "c17churn") == nil {
+				made = made[1:]
+			}
+		}
+	}, t.R.Uint64())
 	// follower and worker: blocks, reorgs, an import and a removal
 	var extra []string
 	for i := 0; i < rounds && !t.Failed(); i++ {
